@@ -32,6 +32,8 @@ def biased_schedules(rnd, n):
                     choices.append({'op': 'send', 'c': 0, 'k': c['k']})
                 if c['k'] in sent and need[c['k']] > 0:
                     choices.append({'op': 'release', 'c': 0, 'k': c['k']})
+            if offered and rnd.random() < 0.08:
+                choices.append({'op': 'accept_error', 'c': 0, 'k': 0})          # the incoming stream yields a fatal accept error
             if not choices:
                 break
             st = rnd.choice(choices)
